@@ -59,19 +59,32 @@ def gen_case(rng):
     else:
         case["threshold"] = rng.choice([None, None, "1/2", "0"])
     case["_pool"] = pool
+    # state the model is in before the analysis: genes already non-functional (flag only, or properly knocked out)
+    if genes and rng.random() < 0.35:
+        g = rng.choice(genes)
+        case["pre"] = {"gene": g, "how": rng.choice(["flag", "knock_out"])}
     return case
 
 
-def knocked_spec(spec, combo, genes: bool):
+def knocked_spec(spec, combo, genes: bool, absent=()):
+    """`absent`: genes that are already non-functional when the analysis is called."""
     s = json.loads(json.dumps(spec))
     for r in s["rxns"]:
         if genes:
             tree = parse_rule(r["rule"])
-            if tree is not None and not ev(tree, set(combo)):
+            touched = bool(set(combo) & set(r["rule"].replace("(", " ").replace(")", " ").split()))
+            if tree is not None and touched and not ev(tree, set(combo) | set(absent)):
                 r["lb"], r["ub"] = "0", "0"
         elif r["id"] in combo:
             r["lb"], r["ub"] = "0", "0"
     return s
+
+
+def apply_pre(spec, pre):
+    """The model description after the pre-existing gene state (a proper knock-out also zeroes the reactions it disables)."""
+    if not pre or pre["how"] == "flag":
+        return spec
+    return knocked_spec(spec, {pre["gene"]}, True)
 
 
 def check_case(case):
@@ -84,13 +97,22 @@ def check_case(case):
         gl = sorted({g for r in spec["rxns"] for g in (set(GENES) & set(r["rule"].replace("(", " ").replace(")", " ").split()))})
         pool = gl if genes else rids
     fails = []
-    (lp, rids, mids, sign) = fbagen.net_lp(spec)
+    pre = case.get("pre")
+    absent = {pre["gene"]} if pre else set()
+    base_spec = apply_pre(spec, pre)
+    (lp, rids, mids, sign) = fbagen.net_lp(base_spec)
     wt = lpcert.certify([lp])[0]
     if wt["status"] != "optimal":
         return None, "not-feasible"
     with warnings.catch_warnings():
         warnings.simplefilter("ignore")
         m = coreops.build_model(spec)
+        if pre and pre["gene"] in m.genes:
+            if pre["how"] == "flag":
+                m.genes.get_by_id(pre["gene"]).functional = False
+            else:
+                m.genes.get_by_id(pre["gene"]).knock_out()
+        spec = base_spec
         dl = m.genes if genes else m.reactions
 
         def arg(l):
@@ -102,7 +124,7 @@ def check_case(case):
             if thr is None and sign * wt["value"] <= 0:
                 return None, "no-growth"
             threshold = F(thr) if thr is not None else sign * wt["value"] / 100
-            certs = lpcert.certify([fbagen.net_lp(knocked_spec(spec, {x}, genes))[0] for x in pool])
+            certs = lpcert.certify([fbagen.net_lp(knocked_spec(spec, {x}, genes, absent))[0] for x in pool])
             want, unsure = set(), set()
             for x, c in zip(pool, certs):
                 if c["status"] != "optimal":
@@ -151,7 +173,7 @@ def check_case(case):
         if set(got) != combos:
             fails.append(f"rows {sorted(map(sorted, set(got)))} != requested unordered combinations {sorted(map(sorted, combos))}")
         order = sorted(combos, key=sorted)
-        kspecs = [knocked_spec(spec, c, genes) for c in order]
+        kspecs = [knocked_spec(spec, c, genes, absent) for c in order]
         if method == "fba":
             certs = lpcert.certify([fbagen.net_lp(k)[0] for k in kspecs])
         else:
